@@ -473,3 +473,83 @@ impl SubCheck for DroppedTogether {
 		}
 	}
 }
+
+// ---------------------------------------------------------------------------------------------
+// several callers unsubscribe the same subscription at the same moment
+// ---------------------------------------------------------------------------------------------
+
+#[derive(Clone, Debug, Serialize, Deserialize)]
+pub struct TogetherCase {
+	pub workers: u8,
+	pub callers: u8,
+	pub rounds: u16,
+}
+
+pub struct UnsubscribedTogether;
+
+impl SubCheck for UnsubscribedTogether {
+	type Case = TogetherCase;
+	fn name(&self) -> &'static str {
+		"unsubscribed-on-several-threads"
+	}
+	fn cases(&self, tier: Tier) -> u32 {
+		tier.pick(32, 1_000)
+	}
+	fn shards(&self, _tier: Tier) -> u32 {
+		2
+	}
+	fn strategy(&self, _tier: Tier) -> BoxedStrategy<TogetherCase> {
+		(2u8..7, 2u8..6, 100u16..400).prop_map(|(workers, callers, rounds)| TogetherCase { workers, callers, rounds }).boxed()
+	}
+	fn run(&self, case: &TogetherCase, obs: &mut Obs) {
+		use jsonrpsee_core::server::RpcModule;
+		obs.nontrivial();
+		let callers = case.callers.clamp(2, 6) as usize;
+		let mut module = RpcModule::new(());
+		module
+			.register_subscription("sub", "item", "unsub", |_, pending, _, _| async move {
+				if let Ok(sink) = pending.accept().await {
+					sink.closed().await;
+				}
+			})
+			.expect("registers");
+		let module = Arc::new(module);
+		let rt = tokio::runtime::Builder::new_multi_thread().worker_threads(case.workers.clamp(2, 6) as usize).enable_time().build().expect("runtime");
+		// the callers are plain OS threads lined up on a barrier; each of them runs its unsubscribe call to completion
+		let mut bad: Vec<String> = vec![];
+		for round in 0..case.rounds.max(1) {
+			let sub = rt.block_on(async { module.raw_json_request(r#"{"jsonrpc":"2.0","id":0,"method":"sub"}"#, 4).await });
+			let Ok((resp, _rx)) = sub else {
+				obs.class("together:inconclusive");
+				break;
+			};
+			let v: Value = serde_json::from_str(resp.get()).unwrap_or(Value::Null);
+			let id = v["result"].clone();
+			let barrier = Arc::new(std::sync::Barrier::new(callers));
+			let answers: Vec<Option<bool>> = std::thread::scope(|sc| {
+				let hs: Vec<_> = (0..callers)
+					.map(|k| {
+						let (module, barrier, id, handle) = (module.clone(), barrier.clone(), id.clone(), rt.handle().clone());
+						sc.spawn(move || {
+							let req = format!(r#"{{"jsonrpc":"2.0","id":{k},"method":"unsub","params":[{id}]}}"#);
+							barrier.wait();
+							let r = handle.block_on(async { module.raw_json_request(&req, 1).await });
+							r.ok().and_then(|(resp, _)| serde_json::from_str::<Value>(resp.get()).ok()).and_then(|v| v["result"].as_bool())
+						})
+					})
+					.collect();
+				hs.into_iter().map(|h| h.join().unwrap_or(None)).collect()
+			});
+			let yes = answers.iter().filter(|a| **a == Some(true)).count();
+			let no = answers.iter().filter(|a| **a == Some(false)).count();
+			if yes != 1 || yes + no != callers {
+				bad.push(format!("round {round}: {callers} unsubscribe calls for the active subscription {id} were answered {answers:?}"));
+				if bad.len() >= 3 {
+					break;
+				}
+			}
+		}
+		rt.shutdown_background();
+		obs.check(bad.is_empty(), "c06/unsubscribe-answers-for-one-subscription", || format!("{bad:?}; case={case:?}"));
+	}
+}
